@@ -1,11 +1,37 @@
-import TucanProofs.Lemmas.Sort
-import TucanModel.Serialize
-/-! # C06 — property theorems (see DESIGN.md §5) -/
+import TucanProofs.Lemmas.Pipeline
+import TucanProofs.Examples
+/-!
+# C06 — TUCAN depends only on elements, isotopes, radicals and connectivity
+
+A corollary of C01's theorem: the relation under which the pipeline is invariant (`Iso SameIdent`)
+constrains nothing but the identity colour (element, mass, radical) of corresponding atoms and the
+neighbour *sets*.  Charges, coordinates, bond types and annotations, any further attribute, the
+numbering and every listing order are free.  (That the two readers map renderings which differ only in
+such data to `Iso SameIdent id`-related graphs is C07/C08's business and is checked there.)
+-/
 namespace Tucan
 
-/-- The tuple list written by the serializer is a function of the *set* of bonds: any two listings of
-the same normalised bonds give the same sorted list. -/
-theorem C06_tuples_listing_independent {l₁ l₂ : List (Nat × Nat)} (h : l₁.Perm l₂) :
-    l₁.mergeSort leNN = l₂.mergeSort leNN := sortNN_perm_eq h
+/-- changing only non-identity data (same numbering) leaves the string unchanged -/
+theorem C06_identity_only (O : CanonOracle) (g g' : Graph) (s s' : Str)
+    (same : Iso SameIdent id g g') (hchem : g.Chem)
+    (hw : g.WF) (hs : g.Simple) (hw' : g'.WF) (hs' : g'.Simple)
+    (h : tucanOf O.order g = .ok s) (h' : tucanOf O.order g' = .ok s') : s = s' :=
+  tucan_invariant O same hchem hw hs hw' hs' h h'
+
+/-- … and so does changing the numeric atom indices on top of that -/
+theorem C06_identity_only_renumbered (O : CanonOracle) (f : Nat → Nat) (g g' : Graph) (s s' : Str)
+    (same : Iso SameIdent f g g') (hchem : g.Chem)
+    (hw : g.WF) (hs : g.Simple) (hw' : g'.WF) (hs' : g'.Simple)
+    (h : tucanOf O.order g = .ok s) (h' : tucanOf O.order g' = .ok s') : s = s' :=
+  tucan_invariant O same hchem hw hs hw' hs' h h'
+
+/-- `SameIdent` really ignores charge, coordinates, the scratch flag and extra data: any two atoms that
+agree on element, symbol, mass, radical and invariant code are related -/
+theorem C06_sameIdent_ignores (x : Atom) (chg : Option Int) (cx cy cz : Option Str) (extra : Option Str)
+    (e : Option Bool) (p : Option Int) :
+    SameIdent x { x with chg := chg, x := cx, y := cy, zc := cz, extra := extra, explored := e, part := p } :=
+  ⟨rfl, rfl, rfl, rfl, rfl⟩
+
+example : exGraph.WF ∧ exGraph.Simple := ⟨exGraph_wf, exGraph_simple⟩
 
 end Tucan
